@@ -26,7 +26,7 @@ var c01Kinds = []string{"nack_gen", "nack_resp", "report_recv", "report_send", "
 
 func (c01) Gen(seed int64, tier string, avoid []string) *Plan {
 	p, r := newPlan("C01", seed, tier, avoid)
-	cfg := RigCfg{RTCPReaders: pick(r, 1, 1, 2), DrainMs: 250}
+	cfg := RigCfg{RTCPReaders: pick(r, 1, 1, 2), DrainMs: 250, StrictFB: true}
 	nk := pick(r, 0, 1, 2, 3, 4, 5, 6)
 	for i := 0; i < nk; i++ {
 		cfg.Kinds = append(cfg.Kinds, c01Kinds[r.Intn(len(c01Kinds))])
